@@ -4,6 +4,7 @@ import (
 	"fmt"
 	"reflect"
 	"regexp"
+	"runtime"
 	"sort"
 	"strconv"
 	"strings"
@@ -135,6 +136,76 @@ func C03(r *core.Run) {
 	})
 	// aliases resolve to the same entry, so they are covered by their target
 	r.Set("entries", len(entries))
+	c03pipeline(r)
+}
+
+// c03pipeline: "concatenated sequences decode to the concatenation of their events" through
+// the real reader and main loop: runs of three different keys arrive in three reads while
+// the application is not polling (event queue full, later reads waiting in the chunk
+// queue); polling starts only when every byte has been read.
+func c03pipeline(r *core.Run) {
+	for _, name := range []string{"xterm-256color", "rxvt-unicode", "vt220", "linux", "wy60", "tmux", "st-256color", "sun-color"} {
+		ti := Pristine(name)
+		if ti == nil {
+			continue
+		}
+		type ks struct {
+			k tcell.Key
+			s string
+		}
+		all := []ks{{tcell.KeyUp, ti.KeyUp}, {tcell.KeyDown, ti.KeyDown}, {tcell.KeyLeft, ti.KeyLeft}, {tcell.KeyRight, ti.KeyRight}, {tcell.KeyHome, ti.KeyHome}, {tcell.KeyF1, ti.KeyF1}, {tcell.KeyF5, ti.KeyF5}, {tcell.KeyPgUp, ti.KeyPgUp}}
+		var keys []ks
+		for _, k := range all {
+			if k.s != "" {
+				keys = append(keys, k)
+			}
+		}
+		if len(keys) < 3 {
+			continue
+		}
+		for round := 0; round < r.Pick(3, 40); round++ {
+			rg := r.Rand("c03pipe", name, round)
+			ls, err := startScreen(ti, 40, 10, nil)
+			if err != nil {
+				r.Inconclusive(err.Error())
+				return
+			}
+			var want []NEv
+			var allBytes []byte
+			nreads := 3 + rg.IntN(4)
+			for i := 0; i < nreads; i++ {
+				k := keys[(round+i*(1+rg.IntN(2)))%len(keys)]
+				n := 1 + 120/len(k.s)
+				if n > 30 {
+					n = 30
+				}
+				ls.tty.Feed([]byte(strings.Repeat(k.s, n)))
+				allBytes = append(allBytes, []byte(strings.Repeat(k.s, n))...)
+			}
+			// expected: what the parser makes of the same bytes in one read (its agreement with
+			// the description is decided by the sweeps above)
+			if d, err := newDecoder(ti, "UTF-8", 40, 10); err == nil {
+				want, _, _ = d.whole(allBytes)
+			}
+			ls.tty.Feed([]byte{0x1d})
+			// nobody polls until the reader has taken everything it can
+			for i := 0; i < 200000 && ls.tty.Pending() > 0; i++ {
+				runtime.Gosched()
+			}
+			got, ok := ls.pollUntilRune(0x1d)
+			ls.judgeSentinel(r, ok, "key pipeline "+name)
+			ls.fini()
+			if !ok {
+				continue
+			}
+			r.Case(fmt.Sprintf("pipe|%s|%d", name, round))
+			r.Count("pipeline_histories", 1)
+			if !evsEq(got, want) {
+				r.Violate("pipeline:concatenation", fmt.Sprintf("%s: %d runs of key sequences arriving in %d reads while the application was not polling were delivered as %s, expected %s", name, nreads, nreads, short(evsStr(got), 600), short(evsStr(want), 600)), nil)
+				break
+			}
+		}
+	}
 }
 
 func c03entry(r *core.Run, ti *terminfo.Terminfo, ei int) {
@@ -215,6 +286,9 @@ func c03entry(r *core.Run, ti *terminfo.Terminfo, ei int) {
 				}
 				if !good {
 					fail("alt-prefix:"+keyClass(s, acc), fmt.Sprintf("ESC + %q (assigned %v) decodes to %s, expected the same key with Alt added", s, acc, evsStr(evs)), "\x1b"+s)
+				} else if evs2, left2, pan2 := d.chunks([][]byte{{0x1b}, []byte(s)}); pan2 != nil || left2 != 0 || !evsEq(evs2, evs) {
+					// the ESC and the key in two reads, no timeout in between
+					fail("alt-prefix:split-read:"+keyClass(s, acc), fmt.Sprintf("ESC and %q arriving in two reads (no timeout in between) decode to %s (leftover %d, panic %v); in one read they decode to %s", s, evsStr(evs2), left2, pan2, evsStr(evs)), "\x1b"+s)
 				}
 			}
 			r.Case(ti.Name + "|alt|" + s)
@@ -263,6 +337,11 @@ func c03entry(r *core.Run, ti *terminfo.Terminfo, ei int) {
 		for s := range desc {
 			if strings.HasPrefix(s, "\x1b"+string(ch)) {
 				partialOfKey = true
+			}
+		}
+		if ok && !partialOfKey {
+			if evs2, left2, pan2 := d.chunks([][]byte{{0x1b}, []byte(string(ch))}); pan2 != nil || left2 != 0 || !evsEq(evs2, evs) {
+				fail("alt-prefix:split-read:rune", fmt.Sprintf("ESC and %q arriving in two reads (no timeout in between) decode to %s (leftover %d, panic %v); in one read they decode to %s", ch, evsStr(evs2), left2, pan2, evsStr(evs)), string(ch))
 			}
 		}
 		if ok && !partialOfKey && (len(evs) != 1 || evs[0].Key != tcell.KeyRune || evs[0].Rune != ch || evs[0].Mod != tcell.ModAlt) {
